@@ -114,7 +114,7 @@ fn case_typed<S: Spec>(sub: &str, id: u64, r: &mut Report) {
     match sub {
         "pairs" => {
             let (_, seed) = gen_seed(&mut p, S::SEED_LEN, wb, true);
-            let kind = p.below(4);
+            let kind = p.below(5);
             let cont = gen_continuation::<S>(&mut p);
             match kind {
                 // (i) clone at a random point of a random history
@@ -145,6 +145,23 @@ fn case_typed<S: Spec>(sub: &str, id: u64, r: &mut Report) {
                     if k > 0 && (skip % bw.max(1)) + k < bw && bw > 1 {
                         r.cov(&format!("{}:same_block_different_index", S::NAME));
                     }
+                }
+                // (i') Clone::clone_from into an existing, unrelated generator
+                4 => {
+                    let n = p.range(0, 24) as usize;
+                    let hist = gen_history::<S>(&mut p, n);
+                    let mut a = S::from_seed(&seed);
+                    for op in &hist {
+                        apply_ext::<S>(&mut a, op);
+                    }
+                    let (_, seed2) = gen_seed(&mut p, S::SEED_LEN, wb, true);
+                    let mut b = S::from_seed(&seed2);
+                    let m = p.range(0, 2 * bw as u64 + 5) as usize;
+                    for _ in 0..m { apply_ext::<S>(&mut b, &Op::U32); }
+                    b.clone_from(&a);
+                    let res = run_pair::<S>(&mut a, &mut b, &cont, r);
+                    judge::<S>("clone_from", true, &res, json!({"seed": hex(&seed), "history": show_ops(&hist), "destination_seed": hex(&seed2), "destination_u32_calls": m, "continuation": show_ops(&cont)}), sub, id, r);
+                    r.distinct(hkey(&[&"clone_from", &S::NAME, &seed, &show_ops(&hist)]));
                 }
                 // (iii) seeds differing in one bit, same history
                 _ => {
@@ -370,6 +387,7 @@ pub fn run(ctx: &Ctx, only: Option<&Only>) -> Report {
     for n in TYPE_NAMES {
         total.floor(&format!("type:{}", n), 100);
         total.floor(&format!("{}:clone", n), 20);
+        total.floor(&format!("{}:clone_from", n), 20);
     }
     total.floor("Hc128Rng:same_block_different_index", 10);
     total.floor("Hc128Rng:shifted_position:eq=false", 10);
